@@ -38,7 +38,7 @@ ASSUMPTIONS = [
     "xls files: the model side is C12's reduced parse_workbook (BiffSst.wb_strings: SST + CONTINUE, LABELSST, LABEL, FORMULA + STRING + CONTINUE); C19_text_survives_xls composes C12's theorems with the UTF-16 round trip; xlsb files are compared with the stored text only (record walk = C03's model, wide_str = the hook model here)",
 ]
 
-TMP = os.path.join(vlib.CACHE, "tmp", "c19")
+TMP = os.path.join(vlib.CACHE, "tmp", "c19-%d" % os.getpid())
 KNOWN_IDS = ()                 # F12, F34, F35, F36, F37 were all repaired in /repo
 
 # ------------------------------------------------------------------ strings
